@@ -96,7 +96,7 @@ func c13Run(e *vh.Env, c c13Case, o *vh.Out) {
 		led.sent++
 		breakerOn := hasKind("cb") || hasKind("ch")
 		switch {
-		case scen == "rl" && r.Status == 429:
+		case (scen == "rl" || scen == "oddkey") && r.Status == 429: // "oddkey" repeated in one multiset drains its three keys as well
 			led.limiter++
 		case scen == "nb" && r.Status == 503:
 			led.nobackend++
@@ -111,7 +111,7 @@ func c13Run(e *vh.Env, c c13Case, o *vh.Out) {
 		}
 	}
 	one := func(kind string, cl int) {
-		if kind == "rl" || kind == "cb" || kind == "ch" || kind == "nb" {
+		if kind == "rl" || kind == "cb" || kind == "ch" || kind == "nb" || kind == "oddkey" {
 			// these scenarios run alone (see below), so the marker is not shared
 			scen = kind
 			defer func() { scen = "" }()
